@@ -1017,8 +1017,9 @@ fn do_command_substitution_for_dot(sh: &mut Shell, tokens: &mut types::Tokens) {
                     _cr
                 }
                 Err(e) => {
+                    // a command that cannot be planned yields the empty string (as for `$(...)`)
                     println_stderr!("cicada: {}", e);
-                    continue;
+                    types::CommandResult::new()
                 }
             };
 
@@ -1066,7 +1067,7 @@ fn do_command_substitution_for_dot(sh: &mut Shell, tokens: &mut types::Tokens) {
                         }
                         Err(e) => {
                             println_stderr!("cicada: {}", e);
-                            continue;
+                            types::CommandResult::new()
                         }
                     };
 
